@@ -69,6 +69,7 @@ def _alt_setup():
 class Ctx:
     def __init__(self, pid, tier, seed):
         self.pid, self.tier, self.seed = pid, tier, seed
+        self.unit = pid.lower()      # which driver / extracted model is in use (format modules run as sub-units of a property)
         self.t0 = time.time()
         if ALT:
             _alt_setup()
@@ -177,12 +178,12 @@ class Ctx:
     # ------------------------------------------------------------ extracted model
     def build_model(self, module, fn="run"):
         """extract <module>.<fn> : val -> val to OCaml and compile the generic line driver around it"""
-        d = os.path.join(BUILD, "ocaml", self.pid.lower())
+        d = os.path.join(BUILD, "ocaml", self.unit)
         os.makedirs(d, exist_ok=True)
         vo = os.path.join(COQ, module.replace(".", "/") + ".vo")
         exe = os.path.join(d, "model")
         mainsrc = os.path.join(VERIF, "ocaml", "main.ml")
-        with Lock("ocaml_" + self.pid):
+        with Lock("ocaml_" + self.unit):
             if os.path.exists(exe) and os.path.getmtime(exe) >= os.path.getmtime(vo) and os.path.getmtime(exe) >= os.path.getmtime(mainsrc):
                 return True, ""
             open(os.path.join(d, "extract.v"), "w").write(
@@ -201,7 +202,7 @@ class Ctx:
     def run_model(self, vals, timeout=900, jobs=12):
         """vals: list of python values (see to_val); returns list of parsed outputs, in order"""
         import concurrent.futures
-        exe = os.path.join(BUILD, "ocaml", self.pid.lower(), "model")
+        exe = os.path.join(BUILD, "ocaml", self.unit, "model")
         lines = [to_val(v) for v in vals]
         if not lines:
             return []
@@ -228,13 +229,13 @@ class Ctx:
         with Lock("build"):
             if not ALT:
                 shutil.copyfile(os.path.join(REPO, "go.sum"), os.path.join(HARNESS, "go.sum"))
-            rc, out, err, dt = run(["go", "build"] + MODFLAGS + ["-tags", "verif", "-o", self.drv_path(), "./cmd/drv-" + self.pid.lower()], cwd=HARNESS, env=GOENV, timeout=1200)
+            rc, out, err, dt = run(["go", "build"] + MODFLAGS + ["-tags", "verif", "-o", self.drv_path(), "./cmd/drv-" + self.unit], cwd=HARNESS, env=GOENV, timeout=1200)
         if rc != 0:
             return False, err
         return True, ""
 
     def drv_path(self):
-        return os.path.join(BUILD, "drv-" + self.pid.lower())
+        return os.path.join(BUILD, "drv-" + self.unit)
 
     def drv(self, args, timeout=600, input=None):
         cmd = [self.drv_path(), "-seed", str(self.seed), "-tier", self.tier, "-scratch", os.path.join(self.scratch, "drv")] + args
@@ -272,14 +273,14 @@ class Ctx:
         ok, err = self.build_drv()
         st["harness_ok"] = ok
         if not ok:
-            self.violation(pid + ":harness-build", "harness does not build against /repo: " + err[-400:], {"stderr": err[-3000:]}, False)
+            self.violation(pid + ":harness-build:" + self.unit, "harness does not build against /repo: " + err[-400:], {"stderr": err[-3000:]}, False)
         if model_module:
             run_vo = model_module.replace(".", "/") + ".vo"
             if built.get(run_vo):
                 okm, merr = self.build_model(model_module)
                 st["model_ok"] = okm
                 if not okm:
-                    self.violation(pid + ":model-extract", "model extraction failed: " + merr[-300:], {"output": merr[-2000:]}, False)
+                    self.violation(pid + ":model-extract:" + self.unit, "model extraction failed: " + merr[-300:], {"output": merr[-2000:]}, False)
         self.status = st
         return st
 
